@@ -36,7 +36,8 @@ ASSUMPTIONS = [
     "start*n >= 3 (giant_steps); integer counters (counter); the theorems fixdecay_negative_counterexample, "
     "halving_negative_counterexample, giant_steps_start1_counterexample show that these cannot be dropped.",
     "Loops inside callbacks supplied by the user and in C extensions (gmpy) are outside the model; MPMATH_NOGMPY=1.",
-    "Dynamic part: a step budget (sys.settrace line events in mpmath frames) decides 'does not return'; precisions <= 4000 bits, "
+    "Dynamic part: a step budget (sys.settrace line events in mpmath frames, 1x then 10x) followed by an untraced re-run against the wall clock "
+    "(60 s quick, 1800 s thorough) decides 'does not return' (a call that comes back in the re-run is listed as slow); precisions <= 4000 bits, "
     "|arguments| <= 1e6; a wall-clock timeout is 'no result'.",
     "Adaptive part: 'does not return' = no result within 4 x max(5 s, 50 x median CPU time of the neighbouring placements around the same "
     "threshold) (two runs in fresh processes: 1x, then 4x) while at least 2 of those neighbours returned and a loop of an open class is on the stack at the cut-off; a call that is "
